@@ -380,7 +380,7 @@ class QueryScheduler:
         """Schedule a query for a pointer."""
         ttl = int(pointer.ttl) if isinstance(pointer.ttl, float) else pointer.ttl
         scheduled_ptr_query = _ScheduledPTRQuery(
-            pointer.alias, pointer.name, ttl, expire_time_millis, refresh_time_millis
+            pointer.alias_key, pointer.name, ttl, expire_time_millis, refresh_time_millis
         )
         self._schedule_ptr_query(scheduled_ptr_query)
 
@@ -391,13 +391,13 @@ class QueryScheduler:
 
     def cancel_ptr_refresh(self, pointer: DNSPointer) -> None:
         """Cancel a query for a pointer."""
-        scheduled = self._next_scheduled_for_alias.pop(pointer.alias, None)
+        scheduled = self._next_scheduled_for_alias.pop(pointer.alias_key, None)
         if scheduled:
             scheduled.cancelled = True
 
     def reschedule_ptr_first_refresh(self, pointer: DNSPointer) -> None:
         """Reschedule a query for a pointer."""
-        current = self._next_scheduled_for_alias.get(pointer.alias)
+        current = self._next_scheduled_for_alias.get(pointer.alias_key)
         refresh_time_millis = pointer.get_expiration_time(_EXPIRE_REFRESH_TIME_PERCENT)
         if current is not None:
             # If the expire time is within self._min_time_between_queries_millis
@@ -409,7 +409,7 @@ class QueryScheduler:
             ):
                 return
             current.cancelled = True
-            del self._next_scheduled_for_alias[pointer.alias]
+            del self._next_scheduled_for_alias[pointer.alias_key]
         expire_time_millis = pointer.get_expiration_time(100)
         self._schedule_ptr_refresh(pointer, expire_time_millis, refresh_time_millis)
         self._wake_up_no_later_than(refresh_time_millis)
